@@ -275,7 +275,10 @@ class Slot:
         else:
             ph = float(HASHv(d._p)) if isinstance(d._p, str) else N(d._p).v
             if d._n is not None:
-                raise RefUnsupported("named batch slot write")
+                # the source addresses only the devices of that name (IC10 has no such instruction: whatever is emitted cannot agree)
+                nh = float(HASHv(d._n)) if isinstance(d._n, str) else N(d._n).v
+                s._w.effect("sbns", ph, nh, float(s._i), lst, N(v))
+                return
             s._w.effect("sbs", ph, float(s._i), lst, N(v))
 
 
